@@ -95,11 +95,28 @@ def _api(case):
     return parts[2].split(":")[0] if len(parts) > 2 else "subset"
 
 
-def _key_trace(m):
+def _class(m):
     cls = "+".join(sorted(m["class"]))
     if "panic" in m["class"]:
         cls = "panic:" + m.get("err", "").replace("Panic:", "")
-    return "%s|%s|%s|%s|%s" % (m["ev"], m["kind"], cls, _container(m["case"]), _api(m["case"]))
+    elif "outline-lost" in m["class"]:
+        # why the output glyph has no outline any more (error class of allsorts' visitor / reader)
+        cls += ":" + m.get("err", "").replace(" ", "_")[:60]
+    return cls
+
+
+def _keys_trace(bad):
+    """Stable keys: event kind | font kind | what differs | container | entry point. A difference that also shows
+    on the plain OpenType source is not specific to a container: all its occurrences share the key of `otf`."""
+    groups = {}
+    for m in bad:
+        groups.setdefault((m["ev"], m["kind"], _class(m), _api(m["case"])), set()).add(_container(m["case"]))
+    out = []
+    for m in bad:
+        g = (m["ev"], m["kind"], _class(m), _api(m["case"]))
+        cont = "otf" if "otf" in groups[g] else _container(m["case"])
+        out.append("%s|%s|%s|%s|%s" % (g[0], g[1], g[2], cont, g[3]))
+    return out
 
 
 def _generate_and_replay(ctx, binp, cfg, every, idx, features, samples):
@@ -132,97 +149,152 @@ def _generate_and_replay(ctx, binp, cfg, every, idx, features, samples):
     return mc, n_cases[0], rep, cases_path, mism_path, gen_trace
 
 
-def _selfcheck_replay(ctx, binp, cases_path):
-    """Binding self-check of the spec -> impl direction: a case whose prescription is corrupted must be reported."""
-    good = None
+def _selfcheck_replay(ctx, binp, cases_path, families=3):
+    """Binding self-check of the spec -> impl direction: a case whose prescription is corrupted must be reported,
+    the untouched case not. Several families: on a broken tree an untouched case may itself be reported."""
+    goods = []
     with open(cases_path) as f:
         for ln in f:
             c = json.loads(ln)
-            if c["exp"]["n"] > len(c["req"]) and c["nhm"] < c["n"]:
-                good = c
-                break
-    if good is None:
+            if c["exp"]["n"] > len(c["req"]) and c["nhm"] < c["n"] and all(g["comp"] != c["comp"] for g in goods):
+                goods.append(c)
+                if len(goods) >= families:
+                    break
+    if not goods:
         raise vlib.ToolError("self-check: no case with pulled-in components")
-    planted = []
-    for what in ("lsb", "advance", "outline", "count", "tail"):
-        c = json.loads(json.dumps(good))
-        if what == "lsb":
-            c["exp"]["head"][-1][2] += 1
-        elif what == "advance":
-            c["exp"]["head"][0][1] += 1
-        elif what == "outline":
-            c["exp"]["head"][0][0] = [[1, 5, 5]]
-        elif what == "count":
-            c["exp"]["n"] += 1
-        else:
-            c["exp"]["tail"][0][0] = [[0, 1, 1]]
-        planted.append(c)
+    kinds = ("lsb", "advance", "outline", "count", "tail")
+    items = []
+    for good in goods:
+        items.append(good)
+        for what in kinds:
+            c = json.loads(json.dumps(good))
+            if what == "lsb":
+                c["exp"]["head"][-1][2] += 1
+            elif what == "advance":
+                c["exp"]["head"][0][1] += 1
+            elif what == "outline":
+                c["exp"]["head"][0][0] = [[1, 5, 5]]
+            elif what == "count":
+                c["exp"]["n"] += 1
+            else:
+                c["exp"]["tail"][0][0] = [[0, 1, 1]]
+            items.append(c)
     p = ctx.path("selfcheck_cases.ndjson")
-    vlib.write_ndjson(p, [good] + planted)
-    rep = vlib.run_harness(binp, ["replay", p, ctx.path("selfcheck_mism.ndjson"), ctx.path("selfcheck_trace.ndjson"), 0])
-    got = [m["case"] for m in vlib.read_ndjson(ctx.path("selfcheck_mism.ndjson"))]
-    if rep.get("mismatches") != len(planted) or got != list(range(2, 2 + len(planted))):
-        raise vlib.ToolError("binding self-check (replay) failed: corrupted prescriptions reported as %s" % got)
-    return len(planted)
+    vlib.write_ndjson(p, items)
+    vlib.run_harness(binp, ["replay", p, ctx.path("selfcheck_mism.ndjson"), ctx.path("selfcheck_trace.ndjson"), 0])
+    got = {m["case"] for m in vlib.read_ndjson(ctx.path("selfcheck_mism.ndjson"))}
+    per = 1 + len(kinds)
+    valid = 0
+    for k in range(len(goods)):
+        base = k * per + 1
+        if base in got:
+            continue                      # the untouched case does not conform on this tree: proves nothing
+        valid += 1
+        missing = [kinds[j] for j in range(len(kinds)) if base + 1 + j not in got]
+        if missing:
+            raise vlib.ToolError("binding self-check (replay) failed: corrupted prescriptions %s not reported" % missing)
+    return valid, len(goods), len(kinds)
 
 
-def _plant_trace(rec_trace):
-    """Corrupted copies of accepted recorded events; each must be rejected with the class named."""
-    glyph = sub = None
+def _plant_trace(rec_trace, families=4):
+    """Corrupted copies of recorded events; each must be rejected with the class named, the untouched copy and an
+    alternative closure order accepted. Several families (from different cases), because on a broken tree the
+    recorded events themselves may not conform: a family whose untouched copy is rejected proves nothing."""
+    glyphs, subs = [], []
     with open(rec_trace) as f:
         last_sub = None
         for ln in f:
             e = json.loads(ln)
             if e["ev"] == "Subset":
                 last_sub = e
-                if sub is None and e["o"]["ok"] and e["a"]["kind"] == "glyf" and e["o"]["n_out"] >= len(e["a"]["ids"]) + 2:
-                    sub = e
-            elif glyph is None and e["a"]["kind"] == "glyf" and e["a"]["metrics"] and e["o"]["src"]["ok"] and len(e["o"]["src"]["cmds"]) > 3 \
-                    and e["o"]["isrc"]["kind"] == "simple":
-                glyph = (last_sub, e)
-            if glyph is not None and sub is not None:
+                if len(subs) < families and e["o"]["ok"] and e["a"]["kind"] == "glyf" and e["o"]["n_out"] >= len(e["a"]["ids"]) + 2 \
+                        and len(e["a"]["ids"]) >= 2 and all(s["case"].split("|")[0] != e["case"].split("|")[0] for s in subs):
+                    subs.append(e)
+            elif len(glyphs) < families and e["a"]["kind"] == "glyf" and e["a"]["metrics"] and e["o"]["src"]["ok"] and e["o"]["out"]["ok"] \
+                    and len(e["o"]["out"]["cmds"]) > 3 and e["o"]["isrc"]["kind"] == "simple" and e["o"]["iout"]["kind"] == "simple" \
+                    and all(g[1]["case"].split("|")[0] != e["case"].split("|")[0] for g in glyphs):
+                glyphs.append((last_sub, e))
+            if len(glyphs) >= families and len(subs) >= families:
                 break
-    if glyph is None or sub is None:
-        raise vlib.ToolError("self-check: no suitable recorded events (glyph=%s subset=%s)" % (glyph is not None, sub is not None))
-    planted, want = [], {}
+    if not glyphs or not subs:
+        raise vlib.ToolError("self-check: no suitable recorded events (glyph=%d subset=%d)" % (len(glyphs), len(subs)))
+    planted, fams = [], []
     base_i = 10 ** 8
 
-    def add(tag, sub_ev, ev, cls):
+    def add(fam, tag, sub_ev, ev, cls):
         k = len(planted)
         s = json.loads(json.dumps(sub_ev))
-        s["case"], s["i"] = tag, base_i + 2 * k
+        s["case"], s["i"] = tag, base_i + k
         planted.append(s)
         if ev is not None:
             g = json.loads(json.dumps(ev))
-            g["case"], g["i"] = tag, base_i + 2 * k + 1
+            g["case"], g["i"] = tag, base_i + k + 1
             planted.append(g)
-        want[tag] = cls
+        fam["want"][tag] = cls
 
-    gs, ge = glyph
-    e = json.loads(json.dumps(ge)); e["o"]["out"]["cmds"][1][1] += 1
-    add("selftest-outline", gs, e, "outline")
-    e = json.loads(json.dumps(ge)); e["o"]["adv"][1] += 1
-    add("selftest-advance", gs, e, "advance")
-    e = json.loads(json.dumps(ge)); e["o"]["lsb"][1] -= 1
-    add("selftest-lsb", gs, e, "lsb")
-    e = json.loads(json.dumps(ge)); e["o"]["iout"]["pts"][0][0] += 1
-    add("selftest-record", gs, e, "record")
-    e = json.loads(json.dumps(ge)); e["o"]["out"] = {"ok": False, "err": "planted", "cmds": []}
-    add("selftest-outline-lost", gs, e, "outline-lost")
-    s = json.loads(json.dumps(sub)); k = len(s["a"]["ids"]); s["o"]["olds"][k], s["o"]["olds"][k + 1] = s["o"]["olds"][k + 1], s["o"]["olds"][k]
-    add("selftest-component-ids", s, None, "component-ids")
-    s = json.loads(json.dumps(sub)); s["o"]["olds"][1], s["o"]["olds"][0] = s["o"]["olds"][0], s["o"]["olds"][1]
-    add("selftest-requested-order", s, None, "requested-order")
-    s = json.loads(json.dumps(sub)); s["o"]["ok"] = False; s["o"]["panic"] = True; s["o"]["err"] = "Panic:planted"
-    s["o"]["n_out"] = 0; s["o"]["olds"] = []; s["o"]["src_comps"] = []; s["o"]["out_comps"] = []
-    add("selftest-panic", s, None, "panic")
-    # accepted: the pulled-in components in another order, consistently renumbered (Dev_ClosureOrder)
-    s = json.loads(json.dumps(sub)); k = len(s["a"]["ids"])
-    for fld in ("olds", "src_comps", "out_comps"):
-        s["o"][fld][k], s["o"][fld][k + 1] = s["o"][fld][k + 1], s["o"][fld][k]
-    s["o"]["out_comps"] = [[(k + 1 if c == k else k if c == k + 1 else c) for c in cs] for cs in s["o"]["out_comps"]]
-    add("selftest-other-closure-order-accepted", s, None, None)
-    return planted, want
+    def cp(x):
+        return json.loads(json.dumps(x))
+
+    for n, (gs, ge) in enumerate(glyphs):
+        fam = {"type": "glyph", "base": "selftest-g%d-base" % n, "want": {}}
+        add(fam, fam["base"], gs, ge, None)
+        e = cp(ge); e["o"]["out"]["cmds"][1][1] += 1
+        add(fam, "selftest-g%d-outline" % n, gs, e, "outline")
+        e = cp(ge); e["o"]["adv"][1] += 1
+        add(fam, "selftest-g%d-advance" % n, gs, e, "advance")
+        e = cp(ge); e["o"]["lsb"][1] -= 1
+        add(fam, "selftest-g%d-lsb" % n, gs, e, "lsb")
+        e = cp(ge); e["o"]["iout"]["pts"][0][0] += 1
+        add(fam, "selftest-g%d-record" % n, gs, e, "record")
+        e = cp(ge); e["o"]["out"] = {"ok": False, "err": "planted", "cmds": []}
+        add(fam, "selftest-g%d-outline-lost" % n, gs, e, "outline-lost")
+        fams.append(fam)
+    for n, sub in enumerate(subs):
+        fam = {"type": "subset", "base": "selftest-s%d-base" % n, "want": {}}
+        add(fam, fam["base"], sub, None, None)
+        k = len(sub["a"]["ids"])
+        s = cp(sub); s["o"]["olds"][k], s["o"]["olds"][k + 1] = s["o"]["olds"][k + 1], s["o"]["olds"][k]
+        add(fam, "selftest-s%d-component-ids" % n, s, None, "component-ids")
+        s = cp(sub); s["o"]["olds"][1], s["o"]["olds"][0] = s["o"]["olds"][0], s["o"]["olds"][1]
+        add(fam, "selftest-s%d-requested-order" % n, s, None, "requested-order")
+        s = cp(sub); s["o"]["olds"] = s["o"]["olds"][:-1]; s["o"]["src_comps"] = s["o"]["src_comps"][:-1]
+        s["o"]["out_comps"] = s["o"]["out_comps"][:-1]; s["o"]["n_out"] -= 1
+        add(fam, "selftest-s%d-closure" % n, s, None, "component-ids")
+        s = cp(sub); s["o"]["ok"] = False; s["o"]["panic"] = True; s["o"]["err"] = "Panic:planted"
+        s["o"]["n_out"] = 0; s["o"]["olds"] = []; s["o"]["src_comps"] = []; s["o"]["out_comps"] = []
+        add(fam, "selftest-s%d-panic" % n, s, None, "panic")
+        # accepted: the pulled-in components in another order, consistently renumbered (Dev_ClosureOrder)
+        s = cp(sub)
+        for fld in ("olds", "src_comps", "out_comps"):
+            s["o"][fld][k], s["o"][fld][k + 1] = s["o"][fld][k + 1], s["o"][fld][k]
+        s["o"]["out_comps"] = [[(k + 1 if c == k else k if c == k + 1 else c) for c in cs] for cs in s["o"]["out_comps"]]
+        add(fam, "selftest-s%d-other-closure-order-accepted" % n, s, None, None)
+        fams.append(fam)
+    return planted, fams
+
+
+def _eval_selfcheck(fams, mism, have_violations):
+    seen = {}
+    for m in mism:
+        if m["case"].startswith("selftest-"):
+            seen.setdefault(m["case"], set()).update(m["class"])
+    verdict = {}
+    for typ in ("glyph", "subset"):
+        valid = [f for f in fams if f["type"] == typ and f["base"] not in seen]
+        if not valid:
+            if have_violations:
+                verdict[typ] = "inconclusive: every recorded base event is itself rejected (see the violations)"
+                continue
+            raise vlib.ToolError("binding self-check: no %s family has an accepted base event, yet nothing is reported" % typ)
+        for f in valid:
+            for tag, cls in f["want"].items():
+                if cls is None and tag in seen:
+                    raise vlib.ToolError("binding self-check failed: %s rejected as %s" % (tag, sorted(seen[tag])))
+                if cls is not None and cls not in seen.get(tag, set()):
+                    raise vlib.ToolError("binding self-check failed: %s not rejected as %s (got %s)" % (tag, cls, sorted(seen.get(tag, []))))
+        verdict[typ] = "%d of %d families valid: every corruption rejected with its class, untouched copies accepted" % (
+            len(valid), len([f for f in fams if f["type"] == typ]))
+    return verdict
 
 
 def run(ctx):
@@ -244,7 +316,7 @@ def run(ctx):
             gen_mism.append(m)
         if first_cases is None:
             first_cases = cases_path
-            n_planted_cases = _selfcheck_replay(ctx, binp, cases_path)
+            replay_self = _selfcheck_replay(ctx, binp, cases_path)
         else:
             os.remove(cases_path)
     missing = [k for k in NEEDED_FEATURES if features.get(k, 0) == 0]
@@ -262,7 +334,7 @@ def run(ctx):
         if tally.get(k, 0) == 0:
             raise vlib.ToolError("recording is vacuous for %s" % k)
 
-    planted, want_self = _plant_trace(rec_trace)
+    planted, fams = _plant_trace(rec_trace)
     trace = ctx.path("trace.ndjson")
     n_gen_events = 0
     with open(trace, "w") as out:
@@ -289,15 +361,11 @@ def run(ctx):
         raise vlib.ToolError("judge consumed %d events, expected %d" % (total, expected_events))
 
     # binding self-check of the judge
-    seen_self = {}
-    for m in mism:
-        if m["case"].startswith("selftest-"):
-            seen_self.setdefault(m["case"], set()).update(m["class"])
-    for tag, cls in want_self.items():
-        if cls is None and tag in seen_self:
-            raise vlib.ToolError("binding self-check failed: %s rejected as %s" % (tag, sorted(seen_self[tag])))
-        if cls is not None and cls not in seen_self.get(tag, set()):
-            raise vlib.ToolError("binding self-check failed: %s not rejected as %s (got %s)" % (tag, cls, sorted(seen_self.get(tag, []))))
+    real = [m for m in mism if not m["case"].startswith("selftest-")]
+    if replay_self[0] == 0 and not gen_mism:
+        raise vlib.ToolError("binding self-check (replay): no untouched case accepted, yet no generated mismatch reported")
+    self_verdict = _eval_selfcheck(fams, mism, bool(real) or bool(gen_mism))
+    ctx.note("binding self-check: %s" % json.dumps(self_verdict))
     for k in ("subsets_ok", "with_pulled_in", "order_as_model", "outlines_nonempty", "metrics_compared", "records_compared",
               "composite_records", "kind_glyf", "kind_cff", "kind_cid", "kind_cff2"):
         if stats.get(k, 0) == 0:
@@ -315,8 +383,7 @@ def run(ctx):
         violations.append(Violation(key, what, {"source": "generated", "mismatch": m}))
     bad = [m for m in mism if not m["case"].startswith("selftest-")]
     first = {}
-    for m in bad:
-        key = _key_trace(m)
+    for m, key in zip(bad, _keys_trace(bad)):
         per_key[key] = per_key.get(key, 0) + 1
         first.setdefault(key, m)
     need = {m["case"]: k for k, m in first.items()}
@@ -351,8 +418,8 @@ def run(ctx):
         "judge_statistics": stats,
         "mismatch_classes": per_key,
         "tlc_states_generated": generated,
-        "binding_selfcheck": "%d corrupted prescriptions reported by replay; %d corrupted events rejected by the judge, 1 alternative closure order accepted" % (
-            n_planted_cases, len([c for c in want_self.values() if c is not None])),
+        "binding_selfcheck": {"replay": "%d of %d families valid (untouched case accepted), %d corrupted prescriptions each, all reported" % replay_self,
+                              "judge": self_verdict, "planted_events": len(planted)},
         "exhaustive": True,
         "explanation": "exhaustive over the bounded model (configs %s); repository fonts: %s" % (
             ", ".join(c for c, _ in CONFIGS[ctx.tier]), "seeded sample" if ctx.quick else "all, larger id lists"),
